@@ -5,6 +5,7 @@ import (
 	"encoding/hex"
 	"fmt"
 	"math/rand"
+	"strings"
 	"testing"
 	"time"
 
@@ -12,6 +13,7 @@ import (
 
 	"github.com/nspcc-dev/neo-go/pkg/config"
 	"github.com/nspcc-dev/neo-go/pkg/core"
+	"github.com/nspcc-dev/neo-go/pkg/core/block"
 	"github.com/nspcc-dev/neo-go/pkg/core/interop/interopnames"
 	"github.com/nspcc-dev/neo-go/pkg/core/state"
 	"github.com/nspcc-dev/neo-go/pkg/core/stateroot"
@@ -68,6 +70,9 @@ type chainCfg struct {
 	MTB    uint32 `json:"mtb"`
 	GCP    uint32 `json:"gcp"`
 	Blocks int    `json:"blocks"`
+	// Drop: the chain runs with StateRootInHeader and ends with a block that is computed but never committed
+	// (the header of its successor, received earlier, names another state root).
+	Drop bool `json:"drop"`
 }
 
 type chainWorld struct {
@@ -158,6 +163,7 @@ func runChain(t *testing.T, res *vh.Result, tr *vh.Trace, i int) {
 	if vh.Thorough() {
 		cc.Blocks += 30
 	}
+	cc.Drop = i%2 == 1
 	src := fmt.Sprintf("chain-%d", i)
 	core0, logs := observer.New(zap.InfoLevel)
 	bc, validator := chain.NewSingleWithOptions(t, &chain.Options{
@@ -173,6 +179,7 @@ func runChain(t *testing.T, res *vh.Result, tr *vh.Trace, i int) {
 				c.Ledger.RemoveUntraceableBlocks = true
 				c.Ledger.KeepOnlyLatestState = true
 			}
+			c.StateRootInHeader = cc.Drop
 			if cc.Mode != "latest" {
 				c.MaxTraceableBlocks = cc.MTB
 				c.Genesis.MaxTraceableBlocks = cc.MTB
@@ -202,7 +209,7 @@ func runChain(t *testing.T, res *vh.Result, tr *vh.Trace, i int) {
 		res.Count([]any{"chain", cc.Mode, ev["latest"], ev["size"], len(ev["put"].([]entry)), len(ev["del"].([]string))})
 	}
 	emitBlock(0, "genesis")
-	persist := func() {
+	persist := func() bool {
 		var paniced any
 		func() {
 			defer func() { paniced = recover() }()
@@ -213,17 +220,19 @@ func runChain(t *testing.T, res *vh.Result, tr *vh.Trace, i int) {
 		if paniced != nil {
 			res.Violate(map[string]any{"kind": "panic", "op": "persist", "mode": cc.Mode, "layer": "chain", "history": "committed-only"},
 				fmt.Sprintf("Go panic escaped Blockchain persist/GC: %v", paniced), map[string]any{"cfg": cc, "src": src})
-			t.Fatalf("panic in persist: %v", paniced)
+			res.Inc("panics", 1)
+			return false
 		}
 		gcs := w.gcRuns()
 		if len(gcs) == 0 {
 			tr.Emit(w.observe(map[string]any{"event": "persist"}))
-			return
+			return true
 		}
 		for _, g := range gcs {
 			tr.Emit(w.observe(map[string]any{"event": "gc", "g": g}))
 			res.Inc("chain_gc_runs", 1)
 		}
+		return true
 	}
 	kv, err := kvContract(validator.ScriptHash())
 	if err != nil {
@@ -275,27 +284,96 @@ func runChain(t *testing.T, res *vh.Result, tr *vh.Trace, i int) {
 			txs = append(txs, w.e.PrepareInvocation(t, sw.Bytes(), []neotest.Signer{validator}))
 		}
 		var paniced any
+		var addErr error
 		func() {
 			defer func() { paniced = recover() }()
-			w.e.AddNewBlock(t, txs...)
+			blk := w.e.NewUnsignedBlock(t, txs...)
+			w.e.SignBlock(blk)
+			addErr = bc.AddBlock(blk)
 		}()
 		if paniced != nil {
 			res.Violate(map[string]any{"kind": "panic", "op": "block", "mode": cc.Mode, "layer": "chain", "history": "committed-only"},
 				fmt.Sprintf("Go panic escaped Blockchain.AddBlock: %v", paniced), map[string]any{"cfg": cc, "src": src, "block": b})
-			t.Fatalf("panic in AddBlock: %v", paniced)
+			res.Inc("panics", 1)
+			return
+		}
+		if addErr != nil {
+			if strings.Contains(addErr.Error(), "MPT") {
+				// "error while trying to apply MPT changes": a node the latest state needs cannot be read
+				res.Violate(map[string]any{"kind": "ApplyFailed", "op": "block", "mode": cc.Mode, "layer": "chain", "history": "committed-only"},
+					fmt.Sprintf("Blockchain.AddBlock failed on the trie: %v", addErr), map[string]any{"cfg": cc, "src": src, "block": b})
+				return
+			}
+			t.Fatalf("AddBlock: %v", addErr)
 		}
 		for _, tx := range txs {
 			w.e.CheckHalt(t, tx.Hash())
 		}
 		emitBlock(bc.BlockHeight(), what)
-		if r.Intn(5) < 2 {
-			persist()
+		if r.Intn(5) < 2 && !persist() {
+			return
 		}
 	}
-	persist()
+	if cc.Drop {
+		if r.Intn(2) == 0 && !persist() {
+			return
+		}
+		if !w.dropBlock(t, res, tr, kv.Hash, u, live) {
+			return
+		}
+	} else if !persist() {
+		return
+	}
 	res.Traces++
 	res.Inc("chain_blocks", int(bc.BlockHeight()))
 	res.Sample(map[string]any{"src": src, "cfg": cc, "height": bc.BlockHeight(), "final_table_size": len(w.prev)})
 }
 
 var _ = rand.Int
+
+// dropBlock makes the chain compute a block that it then refuses to commit: the headers of the block and of its
+// successor are added first, and the successor's PrevStateRoot is not the root the block produces
+// (storeBlock returns after AddMPTBatch). The table must be what it was.
+func (w *chainWorld) dropBlock(t *testing.T, res *vh.Result, tr *vh.Trace, kv util.Uint160, u []string, live map[int]bool) bool {
+	sw := io.NewBufBinWriter()
+	what := []any{}
+	for k := range u { // touch many nodes: rewrite every live key with the most shared value, add the others
+		kb, _ := hex.DecodeString(u[k])
+		emit.AppCall(sw.BinWriter, kv, "put", callflag.All, kb, []byte{0xaa})
+		what = append(what, []string{u[k], "aa"})
+	}
+	tx := w.e.PrepareInvocation(t, sw.Bytes(), []neotest.Signer{w.e.Validator})
+	blk := w.e.NewUnsignedBlock(t, tx)
+	w.e.SignBlock(blk)
+	next := &block.Header{
+		Index: blk.Index + 1, PrevHash: blk.Hash(), Timestamp: blk.Timestamp + 1, NextConsensus: blk.NextConsensus,
+		Script:           transaction.Witness{VerificationScript: w.e.Validator.Script()},
+		StateRootEnabled: true, PrevStateRoot: util.Uint256{0xde, 0xad},
+	}
+	next.Script.InvocationScript = w.e.Validator.SignHashable(uint32(w.bc.GetConfig().Magic), next)
+	if err := w.bc.AddHeaders(&blk.Header, next); err != nil {
+		t.Fatalf("AddHeaders: %v", err)
+	}
+	var paniced any
+	var err error
+	func() {
+		defer func() { paniced = recover() }()
+		err = w.bc.AddBlock(blk)
+	}()
+	if paniced != nil {
+		res.Violate(map[string]any{"kind": "panic", "op": "block", "mode": w.cfg.Mode, "layer": "chain", "history": "after-discarded-block"},
+			fmt.Sprintf("Go panic escaped Blockchain.AddBlock: %v", paniced), map[string]any{"cfg": w.cfg})
+		res.Inc("panics", 1)
+		return false
+	}
+	if err == nil || !strings.Contains(err.Error(), "PrevStateRoot mismatch") {
+		t.Fatalf("the block was expected to be dropped for a state root mismatch, got: %v", err)
+	}
+	ev := w.observe(map[string]any{"event": "block", "h": blk.Index, "committed": false, "failed": false, "root": "", "txs": what,
+		"dropped": err.Error()})
+	ev["class"] = "after-discarded-block"
+	tr.Emit(ev)
+	res.Inc("chain_dropped_blocks", 1)
+	res.Count([]any{"chain-drop", w.cfg.Mode, ev["latest"], ev["size"], len(ev["put"].([]entry)), len(ev["del"].([]string))})
+	return true
+}
